@@ -403,6 +403,8 @@ class Mir:
             if m:
                 last_fn = f
                 self._index(f)
+            elif cm or sm:
+                last_fn = f          # promoteds printed after a const / static item belong to that item, not to the function before it
             i = j + 1
 
     def _index(self, f):
